@@ -50,10 +50,8 @@ Fixpoint list_N_eqb (a b : list N) : bool :=
   | _, _ => false
   end.
 
-(* Known findings (known_findings.jsonl, property C07):
-   1  playerinfo.Upsert.Encode writes the per-entry data in ActionSet order while the bit set is canonical
-   2  1.7 byte arrays are written with a one-byte length instead of the vanilla short (plugin message, encryption
-      request / response below protocol 47) *)
+(* Both findings once recorded for C07 are repaired (known_findings.jsonl: fixed - action order d54f770, two-byte
+   1.7 array length 6e760d1).  No exception is left: a recurrence is a violation. *)
 Definition judge (c : case) : verdict :=
   let ctx := mkctx (cv c) (cb c) in
   match k c with
@@ -64,26 +62,18 @@ Definition judge (c : case) : verdict :=
           match decodes_to (van ctx) ctx (env c) (obs c) with
           | None => VMismatch
           | Some true => VOk
-          | Some false =>
-              if uses_17_array (tname c) && (cv c <? v1_8)%Z then
-                match Check.C04.find_entry (tname c) packets with
-                | Some (Fragment _ enc _ _) => if encodes_as enc ctx (env c) (obs c) then VKnown 2 else VViolation
-                | _ => VViolation
-                end
-              else VViolation
+          | Some false => VViolation
           end
       end
   | KUpsert acts =>
-      let want := tree (van_upsert acts ctx) ctx [([], env c)] in
-      match want with
+      match tree (van_upsert acts ctx) ctx [([], env c)] with
       | None => VMismatch
       | Some w =>
           match van_upsert_decode ctx (obs c) with
-          | Ok (t, []) => if value_eqb t w then VOk
-                          else if negb (list_N_eqb (canonical acts) acts) && encodes_as (impl_upsert acts ctx) ctx (env c) (obs c)
-                               then VKnown 1 else VViolation
-          | _ => if negb (list_N_eqb (canonical acts) acts) && encodes_as (impl_upsert acts ctx) ctx (env c) (obs c)
-                 then VKnown 1 else VViolation
+          | Ok (t, []) => if value_eqb t w
+                          then (if encodes_as (impl_upsert acts ctx) ctx (env c) (obs c) then VOk else VMismatch)
+                          else VViolation
+          | _ => VViolation
           end
       end
   | KLoginStart =>
